@@ -163,6 +163,60 @@ class C19(Prop):
             sys.modules.pop(modname, None)
             shutil.rmtree(d, ignore_errors=True)
 
+    def refusal(self, c):
+        """`gen` through the CLI with an output file that already exists, named in one of four spellings (absolute,
+        relative to the working directory, through an unexpanded `~` with HOME = the scratch directory, through a `..`
+        detour); -> None when refused with the file and its directory untouched, else a failure"""
+        import json
+        import zlib
+
+        how = ["absolute", "relative", "tilde", "dotdot"][zlib.crc32(json.dumps(c, sort_keys=True).encode()) % 4]
+        d = tempfile.mkdtemp(prefix="c19r")
+        _counter[0] += 1
+        modname = "c19ref_%d_%d" % (os.getpid(), _counter[0])
+        old_home, old_cwd = os.environ.get("HOME"), os.getcwd()
+        try:
+            with open(os.path.join(d, modname + ".py"), "w") as f:
+                f.write(c["module"])
+            os.mkdir(os.path.join(d, "sub"))
+            out = os.path.join(d, "existing.py")
+            with open(out, "w") as f:
+                f.write("KEEP = 1\n")
+            spelled = {"absolute": out, "relative": "existing.py", "tilde": "~/existing.py", "dotdot": os.path.join(d, "sub", "..", "existing.py")}[how]
+            os.environ["HOME"] = d
+            os.chdir(d)
+            sys.path.insert(0, d)
+            importlib.invalidate_caches()
+            before = {n: open(os.path.join(d, n)).read() for n in sorted(os.listdir(d)) if n.endswith(".py")}
+            buf = io.StringIO()
+            outcome = "completed"
+            try:
+                with contextlib.redirect_stdout(buf), contextlib.redirect_stderr(buf):
+                    from doctrans.__main__ import main
+
+                    main(["gen", "--name-tpl", c["tpl"], "--input-mapping", modname + ".MAPPING", "--type", c["type"], "-o", spelled]
+                         + (["--prepend", c["prepend"]] if c["prepend"] else []))  # fmt: skip
+            except SystemExit as e:
+                outcome = "exit-%s" % e.code
+            except Exception as e:
+                outcome = "raises:" + exc_kind(e)
+            after = {n: open(os.path.join(d, n)).read() for n in sorted(os.listdir(d)) if n.endswith(".py")}
+            stray = [n for n in os.listdir(d) if n not in ("sub", "__pycache__") and not n.endswith(".py")]
+            if outcome == "completed" or after != before or stray:
+                return {"what": "gen did not refuse an output file that already exists (or touched it / its directory)", "spelled": how,
+                        "outcome": outcome, "existing file changed": after.get("existing.py") != before.get("existing.py"), "stray": stray}  # fmt: skip
+            return None
+        finally:
+            os.chdir(old_cwd)
+            if old_home is None:
+                os.environ.pop("HOME", None)
+            else:
+                os.environ["HOME"] = old_home
+            if d in sys.path:
+                sys.path.remove(d)
+            sys.modules.pop(modname, None)
+            shutil.rmtree(d, ignore_errors=True)
+
     def _observe(self, c):
         import json
 
@@ -217,9 +271,10 @@ class C19(Prop):
 
     def oracle(self, c, run):
         outcome, text = self._observe(c)
+        ref = self.refusal(c)
         if outcome != "ok":
-            return [{"what": "gen raised", "outcome": outcome[:600]}]
-        fails = []
+            return [{"what": "gen raised", "outcome": outcome[:600]}] + ([ref] if ref else [])
+        fails = [ref] if ref else []
         try:
             tree = ast.parse(text)
         except SyntaxError as e:
